@@ -10,6 +10,7 @@ import VotelibDriver.C08Seq
 import VotelibDriver.C16
 import VotelibModel.ShapeCompose
 import VotelibModel.ShapeAux
+import VotelibModel.ShapeTieBreak
 open Lean
 namespace VL.Drv.C08
 open VL VL.Convert
@@ -62,6 +63,18 @@ def own (op : String) (j : Json) : Option (Except String Json) :=
       | _ => throw "numbers: pair expected")
     let num : Cand → Option Int := fun c => match nums.find? (fun e => e.1 == c) with | some e => e.2 | none => none
     pure (exceptJson (fun l => toJson l) (ShapeAux.candidateNumberRanker num votes n))
+  | "tb_plurality" => some do
+    let votes ← getVotes j "votes"
+    let n ← j.getObjValAs? Nat "n"
+    pure (exceptJson slotsJson (ShapeTB.tbPlurality votes n))
+  | "tb_lr" => some do
+    let cfg ← C02.getCfg j
+    let votes ← getVotes j "votes"
+    let n ← j.getObjValAs? Nat "n"
+    pure (exceptJson C02.selJson (ShapeTB.tbLargestRemainder cfg votes n))
+  | "tb_ha" => some do
+    let cfg ← C01.getCfg j
+    pure (exceptJson C02.selJson (ShapeTB.tbHighestAverages cfg))
   | "input_order" => some do
     let votes ← getVotes j "votes"
     let n ← j.getObjValAs? Nat "n"
